@@ -625,6 +625,16 @@ func sliceValue[T scalarProtoFieldGoType](fd *FieldData, wt csproto.WireType, re
 			res = make([]T, 0, len(fd.data))
 		}
 		for _, data := range fd.data {
+			// a length-delimited target type (string) has exactly one value per occurrence,
+			// which may be empty
+			if wt == csproto.WireTypeLengthDelimited {
+				v, _, err := convertFn(data)
+				if err != nil {
+					return nil, err
+				}
+				res = append(res, v)
+				continue
+			}
 			// data contains 1 or more encoded values of type T
 			// . invoke convertFn at each successive offset to extract them
 			for offset := 0; offset < len(data); {
